@@ -14,8 +14,11 @@ RULE = (
     "for every generated stream (3-10 records over 1-3 descriptors incl. nested and grouped records, 300-8000 bytes; every fourth one "
     "is a file that 1-3 later writers appended to, so it holds mid-stream header frames and repeated descriptor frames) the "
     "fault space is enumerated completely: (cut) EVERY byte offset 0..len of the raw stream read through a buffered "
-    "BytesIO, a raw non-peekable reader returning short reads, and RecordReader(fileobj=); (gzcut) EVERY byte offset of "
-    "the sync-flushed gzip form (built by the harness) and of the gzip file the library itself writes when flushed after every record, read through RecordReader(fileobj=); (wfault) EVERY write-call index of the writer's file "
+    "BytesIO, a raw non-peekable reader returning short reads, RecordReader(fileobj=), a reader with an (always true) interpreted "
+    "selector active, and record_stream([path]) on a file holding the cut; (gzcut) EVERY byte offset of "
+    "the sync-flushed gzip form (built by the harness; one gzip member per appended part) read through RecordReader(fileobj=), with a selector, and through "
+    "record_stream, and of the gzip file the library itself writes when flushed after every record (on a fresh path or over a longer "
+    "pre-existing file; the complete file must read without error); (wfault) EVERY write-call index of the writer's file "
     "object x {raise, short write + raise, silent short write + crash}, then reading what reached the file object; (wcont) "
     "EVERY frame whose write fails cleanly (the length-prefix call raises, nothing reaches the file) while the application "
     "carries on writing: the reader must yield an unmodified prefix of the records whose write() returned, at least up to the "
@@ -47,6 +50,10 @@ def setup(ctx):
 
 def teardown(ctx):
     ctx.state["reach"].stop()
+    if _SCRATCH:
+        import shutil
+
+        shutil.rmtree(_SCRATCH.pop(), ignore_errors=True)
 
 
 def generate(ctx):
@@ -54,8 +61,8 @@ def generate(ctx):
     idx = 0
     for i in range(nstreams):
         s = subseed("c04", ctx.seed, "stream", i)
-        for kind, sub in (("cut", "buffered"), ("cut", "raw"), ("cut", "reader"), ("gzcut", "reader"), ("wfault", "raise"), ("wfault", "short"), ("wfault", "silent-short"),
-                          ("wcont", "raise"), ("gzlib", "reader")):
+        for kind, sub in (("cut", "buffered"), ("cut", "raw"), ("cut", "reader"), ("cut", "selector"), ("cut", "rstream"), ("gzcut", "reader"), ("gzcut", "selector"),
+                          ("gzcut", "rstream"), ("wfault", "raise"), ("wfault", "short"), ("wfault", "silent-short"), ("wcont", "raise"), ("gzlib", "reader")):
             if ctx.mine(idx):
                 yield {"k": kind, "sub": sub, "s": s, "i": i}
             idx += 1
@@ -190,9 +197,38 @@ def read_all(make_reader):
     return got, None
 
 
+_SCRATCH = []  # [directory] for the readers that need a path (record_stream)
+
+
+def _scratch_path(name):
+    import os
+    import tempfile
+
+    if not _SCRATCH:
+        _SCRATCH.append(tempfile.mkdtemp(prefix="frv-c04r-", dir=os.environ.get("VERIF_TMP", "/var/tmp")))
+    return os.path.join(_SCRATCH[0], name)
+
+
 def make_reader_factory(sub, data):
     from flow.record import RecordReader, RecordStreamReader
 
+    if sub == "selector":
+        # an (always true) interpreted selector is active while reading: header frames, descriptor frames and damaged
+        # frames pass through the same loop as the records it is applied to
+        from flow.record.selector import Selector
+
+        if len(data) % 2 and data[:2] != b"\x1f\x8b":
+            return lambda: RecordStreamReader(io.BytesIO(data), selector=Selector("1 == 1"))
+        return lambda: RecordReader(fileobj=io.BytesIO(data), selector="1 == 1")
+    if sub == "rstream":
+        # record_stream(): the multi-source front end rdump uses; it reads from a path and swallows (logs) errors
+        from flow.record.stream import record_stream
+
+        gz = data[:2] == b"\x1f\x8b"
+        path = _scratch_path(("cut.records.gz" if len(data) % 2 else "cut.bin") if gz else "cut.records")
+        with open(path, "wb") as f:
+            f.write(data)
+        return lambda: record_stream([path])
     if sub == "buffered":
         return lambda: RecordStreamReader(io.BytesIO(data))
     if sub == "raw":
@@ -301,15 +337,16 @@ def execute(ctx, case):
                 ctx.note_add("gzip_prefix_model_mismatch")
                 continue
             cnt = expected_for(len(plain))
-            yielded, exc = read_all(make_reader_factory("reader", cut))
-            check_prefix(ctx, case, "gzip form cut at byte %d" % n, yielded, exc, _got_expected(written, yielded, cnt), False,
-                         {"offset": n, "gzip_len": len(gz), "decodable_plain_bytes": len(plain)})
+            yielded, exc = read_all(make_reader_factory(sub, cut))
+            check_prefix(ctx, case, "gzip form cut at byte %d via %s" % (n, sub), yielded, exc, _got_expected(written, yielded, cnt), False,
+                         {"offset": n, "gzip_len": len(gz), "decodable_plain_bytes": len(plain), "reader": sub})
             ctx.ev()
             ctx.event("gzcut")
+            ctx.event("gzcut:" + sub)
             ctx.event("gzcut_raises" if exc else "gzcut_ends")
-            ctx.nontrivial("gzcut", case["s"], n)
+            ctx.nontrivial("gzcut", sub, case["s"], n)
         # whole gzip stream reads completely
-        yielded, exc = read_all(make_reader_factory("reader", gz))
+        yielded, exc = read_all(make_reader_factory(sub, gz))
         check_prefix(ctx, case, "complete gzip form", yielded, exc, _got_expected(written, yielded, len(written)), True, {"gzip_len": len(gz)})
         return
 
@@ -365,6 +402,14 @@ def run_library_gzip_cuts(ctx, case, records, written):
     d = tempfile.mkdtemp(prefix="frv-c04-", dir=os.environ.get("VERIF_TMP", "/var/tmp"))
     try:
         path = os.path.join(d, "s.records.gz")
+        if case["s"] % 2:
+            # the output path already exists and is LONGER than what is going to be written (an older run's file, or
+            # junk): opening it for writing starts from nothing
+            import gzip as _gzip
+
+            with open(path, "wb") as f:
+                f.write(_gzip.compress(refcodec.HEADER_FRAME + b"\x00\x00\x00\x05stale") * 3 + b"J" * 20000)
+            ctx.event("gzlib_output_path_existed_with_longer_content")
         w = RecordWriter(path)
         for r in records:
             w.write(r)
@@ -399,6 +444,10 @@ def run_library_gzip_cuts(ctx, case, records, written):
         ctx.event("gzlib_cut")
         ctx.event("gzlib_raises" if exc else "gzlib_ends")
         ctx.nontrivial("gzlib", case["s"], n)
+    # the complete file, as the library left it after close(): everything written, and no error at its end
+    yielded, exc = read_all(make_reader_factory("reader", gz))
+    check_prefix(ctx, case, "complete gzip file written by the library", yielded, exc, _got_expected(written, yielded, len(written)), True, {"gzip_len": len(gz)})
+    ctx.event("gzlib_complete_files")
 
 
 def run_continue_after_fault(ctx, case, records, written, data, tee, frames):
